@@ -10,7 +10,7 @@ package main
 //   api acct del <user>               Delete   -> ok | err:<class>
 //   api acct get <user>               Get      -> <user>:<hash> | err:notfound | err:invalid
 //   api acct list                     List     -> n=<total> [user:hash,…]   (indexer order)
-//   api acct file                     the password file(s) parsed back: load=[…] save=[…]
+//   api acct file                     the password files parsed back: load=<ConfigDir>/<file>, cwd=./<file> (same | absent | […])
 //   api acct failsave 0|1             the next saves fail / work again (plugin/auth/verif_export_auth.go)
 //   api acct write <hex>              overwrite the file Load reads with raw bytes
 //   api acct seedfile <user>:<spec>,… overwrite the file Load reads with these accounts (yaml.Marshal, as the plugin saves)
@@ -306,11 +306,9 @@ func (e *authEnv) symbolic(stored string) string {
 	for _, p := range e.known {
 		switch e.alg {
 		case auth.Bcrypt:
-			if bcrypt.CompareHashAndPassword([]byte(stored), []byte(p)) == nil {
+			// bcrypt only looks at the first 72 bytes: longer candidates would "match" a 72-byte password
+			if len(p) <= 72 && bcrypt.CompareHashAndPassword([]byte(stored), []byte(p)) == nil {
 				return "H(" + showBytes(p) + ")"
-			}
-			if strings.HasPrefix(stored, "$2A$") && bcrypt.CompareHashAndPassword([]byte(unUpper(stored)), []byte(p)) == nil {
-				return "U(" + showBytes(p) + ")"
 			}
 		default:
 			h := e.realHash(p)
@@ -324,9 +322,6 @@ func (e *authEnv) symbolic(stored string) string {
 	}
 	return showBytes(stored)
 }
-
-// a bcrypt hash cannot be un-upper-cased; U() of a bcrypt hash is rendered through the seed table instead
-func unUpper(s string) string { return s }
 
 func (e *authEnv) showAccount(a *auth.Account) string {
 	if u, ok := e.upper[a.Password]; ok {
@@ -444,9 +439,9 @@ func acctOp(d *brokerDrv, pos []string, m map[string]string) string {
 		res = fmt.Sprintf("n=%d [%s]", total, strings.Join(parts, ","))
 	case "file":
 		if e.loadPath == e.savePath {
-			res = "load=" + e.showFile(e.loadPath) + " save=same"
+			res = "load=" + e.showFile(e.loadPath) + " cwd=same"
 		} else {
-			res = "load=" + e.showFile(e.loadPath) + " save=" + e.showFile(e.savePath)
+			res = "load=" + e.showFile(e.loadPath) + " cwd=" + e.showFile(e.savePath)
 		}
 	case "failsave":
 		if len(pos) < 3 {
